@@ -278,7 +278,9 @@ func boundaryDirectories() []*directory {
 		partition("DC=DomainDnsZones,DC=corp,DC=example"),
 		partition("DC=ForestDnsZones,DC=corp,DC=example"),
 	}}
-	d0.fill(nil, func(int) []uint32 { return []uint32{500, 501, 502, 512, 513, 1104, 1105, 544, 560, 572} }, func(int) []uint32 { return builtinRange() }, []uint32{4242, 7})
+	d0.fill(nil, func(int) []uint32 {
+		return []uint32{500, 501, 502, 512, 513, 1104, 1105, 544, 560, 572, 65535, 65536, 66080, 131617, 65536 + 583, 1<<31 + 544, 0xFFFF0220}
+	}, func(int) []uint32 { return builtinRange() }, []uint32{4242, 7})
 	out = append(out, d0)
 	// sub-authority counts 0, 1, 14, 15; authorities 0, 2^32, 2^48-1; powers of ten
 	fourteen := make([]uint32, 14)
@@ -379,6 +381,9 @@ func seededDirectory(rng *rand.Rand, k int) *directory {
 				rid = boundaryRIDs[rng.IntN(len(boundaryRIDs))]
 			case 1:
 				rid = 544 + uint32(rng.IntN(40)) // a principal of the domain whose RID is in the BUILTIN range
+				if rng.IntN(2) == 0 {
+					rid += 65536 * uint32(1+rng.IntN(65535)) // or only looks like one in its low 16 bits
+				}
 			case 2:
 				rid = 1000 + uint32(rng.IntN(9000))
 			default:
@@ -602,6 +607,25 @@ func (sr *sessionRun) findByRID(name string, rid int) {
 		return
 	}
 	cs["filter_received"], cs["base_received"], cs["sent_in_this_search"], cs["got"] = q.filter, q.base, sentView(q.sent), got
+	// the question itself: the object asked for is the one whose SID is the domain's SID followed
+	// by the RID (for the BUILTIN alias range S-1-5-32-<rid> is the library's documented choice)
+	var match []dirHead
+	for _, h := range sr.d.heads {
+		if strings.EqualFold(name, refDomainOfDN(h.dn)) || strings.EqualFold(name, h.dc) {
+			match = append(match, h)
+		}
+	}
+	if len(match) == 1 && match[0].principals && match[0].sid != nil {
+		domainForm := fmt.Sprintf("(objectSid=%s-%d)", refSIDString(match[0].domainAuth, match[0].domainSubs), rid)
+		builtinForm := fmt.Sprintf("(objectSid=S-1-5-32-%d)", rid)
+		r.Eval(1)
+		if q.filter != domainForm && !(rid >= 544 && rid <= 583 && q.filter == builtinForm) {
+			r.Violation("ldap.Session.FindObjectSIDByRID:filter", fmt.Sprintf("FindObjectSIDByRID(%q, %d) searched for %s, the object with that RID in that domain is %s", name, rid, q.filter, domainForm), cs)
+			return
+		}
+	} else {
+		r.Count("session_rid_lookup_filter_not_judged", 1)
+	}
 	if err != nil {
 		r.Violation("ldap.Session.FindObjectSIDByRID:error", fmt.Sprintf("the responder answered %q with %d entries, the call failed: %v", q.filter, len(q.sent), err), cs)
 		return
